@@ -152,12 +152,14 @@ def run_history(job):
         return tr
     setup_ev = {"e": "setup", "out": "built", "post": live_inputs(), "edb": dgcall(edb.serialize), "single": {}}
     ev.append(setup_ev)
-    # the single-search answers: one lone search per keyword on a private deep copy of the freshly built index
+    # the single-search answers: one lone search per keyword on a private deep copy of the freshly built index, by a
+    # scheme object of its own (state kept in the scheme object must not leak into the reference either)
     for w in SYMS:
         exp = db_copy.get(kw[w], [])
         try:
             e2 = copy.deepcopy(edb)
-            r = sch.Search(e2, sch.TokenGen(key, kw[w])).get_result_list()
+            s2 = ml.SSEScheme() if byref else ml.SSEScheme(copy.deepcopy(cfg_copy))
+            r = s2.Search(e2, s2.TokenGen(key, kw[w])).get_result_list()
             setup_ev["single"][w] = positions(r, exp)
         except Exception as ex:
             setup_ev["single"][w] = [-1]
@@ -326,5 +328,5 @@ def main(argv_tier=None, replay_path=None):
     }
     return finish(PROP, tr, t0, cov, vio_out, seen,
                   assumptions=["values are compared through SHA-256 digests (80 bits kept) of a canonical encoding: dicts and sets order-insensitive, lists ordered",
-                               "the single-search answer is taken on copy.deepcopy() of the index object right after EDBSetup",
+                               "the single-search answer is taken on copy.deepcopy() of the index object right after EDBSetup, with a scheme object of its own",
                                "identifiers and keywords random, valid by construction; the near-absent keyword is a stored keyword minus its last byte"])
